@@ -294,11 +294,12 @@ func c16BothWhens(res *eng.Result, ss *sigSet) {
   container u { leaf uz { type int32; } leaf keep { type string; }
     uses g { when "uz>5"; } }
   grouping g { leaf gu { when "uz<20"; type string; } container gc { when "../uz<15"; leaf q { type string; } } leaf g3 { when "uz<8"; type string; } leaf g4 { type string; } }
-  container t { leaf tz { type int32; } }
+  container t { leaf tz { type int32; } choice tch { leaf other { type string; } } }
+  augment "/t/tch" { when "tz>5"; case ca { when "tz<20"; leaf cl { type string; } } case cb { when "tz<8"; leaf cm { type string; } } leaf sh { when "../tz<15"; type string; } }
   augment "/t" { when "tz>5"; leaf au { when "tz<20"; type string; } container ac { when "../tz<15"; leaf q { type string; } } leaf a3 { when "tz<8"; type string; } leaf a4 { type string; } }
 }`
 	m := model.LoadText(text)
-	upper := map[string]int{"u/gu": 20, "u/gc": 15, "u/g3": 8, "u/g4": 1 << 30, "t/au": 20, "t/ac": 15, "t/a3": 8, "t/a4": 1 << 30}
+	upper := map[string]int{"u/gu": 20, "u/gc": 15, "u/g3": 8, "u/g4": 1 << 30, "t/au": 20, "t/ac": 15, "t/a3": 8, "t/a4": 1 << 30, "t/cl": 20, "t/cm": 8, "t/sh": 15}
 	for _, p := range []c16Place{
 		{"uses/leaf-member-with-own-when", "u/gu", "u/uz", "u/keep"},
 		{"uses/container-member-with-own-when", "u/gc", "u/uz", "u/keep"},
@@ -308,6 +309,9 @@ func c16BothWhens(res *eng.Result, ss *sigSet) {
 		{"augment/container-member-with-own-when", "t/ac", "t/tz", "t/tz"},
 		{"augment/last-leaf-member-with-own-when", "t/a3", "t/tz", "t/tz"},
 		{"augment/member-without-own-when", "t/a4", "t/tz", "t/tz"},
+		{"augment-of-choice/case-with-own-when", "t/cl", "t/tz", "t/tz"},
+		{"augment-of-choice/last-case-with-own-when", "t/cm", "t/tz", "t/tz"},
+		{"augment-of-choice/shorthand-leaf-with-own-when", "t/sh", "t/tz", "t/tz"},
 	} {
 		for _, ov := range []int{3, 6, 10, 17, 25} {
 			truth := ov > 5 && ov < upper[p.guarded]
